@@ -133,6 +133,8 @@ func ErrKind(err error) string {
 	}
 	m := err.Error()
 	switch {
+	case strings.Contains(m, "injected transient file-system error"):
+		return "injected"
 	case strings.Contains(m, "too large"):
 		return "toolarge"
 	case strings.Contains(m, "busy"):
